@@ -239,7 +239,7 @@ class WirePart(Part):
 
     def img_expected(self, d):
         n = (len(d["hex"]) // 2) if d["hex"] != "-" else 0
-        return "%s | reenc=1 size=%d consumed=%d minlen=%d wf=1" % (d["content"], n, n, n)
+        return "%s | reenc=1 size=%d consumed=%d minlen=%d wf=1 ir=1" % (d["content"], n, n, n)
 
     def model_lines(self, hist, impl_out):
         return [self.img_model_line(d) for d in map(parse_img, impl_out) if d]
